@@ -349,20 +349,84 @@ Definition roundtrip_vc (w : variant) (j : json) : option json := option_map (ma
 
 (* ---------- presentation ---------- *)
 
-Record vp := {
-  p_ctx : list string; p_cctx : list json; p_id : string; p_types : list string; p_creds : list json;
-  p_holder : string; p_proofs : list (option obj); p_cf : obj }.
+(* ---- enclosed credentials ----
+   an object is kept as a map; a string is parsed as a credential (ParseCredential): a JWT, or an SD-JWT in combined
+   format  jwt~disclosure~...~[holder binding].  Which strings are compact JWS, and whether their payload carries
+   _sd_alg, is decided by the jose/jwt code: the environment [env] hands that over (jwt text, has _sd_alg). *)
+Inductive cred := CObj (j : json) | CJwt (jwt : string) (ds : list string) (hb : string) (sd : bool).
 
-(* decodeCredentials, for credentials given as objects (strings are parsed as JWT/JSON credentials: not modelled) *)
-Definition dec_creds (o : option json) : option (list json) :=
-  match o with
-  | None | Some JNull => Some []
-  | Some (JArr l) => if existsb (fun c => match c with JStr _ => true | _ => false end) l then None else Some (map f64j l)
-  | Some (JStr _) => None
-  | Some j => Some [f64j j]
+Definition tilde : ascii := "~"%char.
+(* strings.Split(s, "~"): at least one part *)
+Fixpoint split_tilde (s : string) : list string :=
+  match s with
+  | EmptyString => [EmptyString]
+  | String c r =>
+      if Ascii.eqb c tilde then EmptyString :: split_tilde r
+      else match split_tilde r with
+           | p :: ps => String c p :: ps
+           | [] => [String c EmptyString]
+           end
+  end.
+Fixpoint join_tilde (l : list string) : string :=
+  match l with
+  | [] => EmptyString
+  | [p] => p
+  | p :: r => (p ++ String tilde (join_tilde r))%string
+  end.
+Fixpoint env_get (env : list (string * bool)) (k : string) : option bool :=
+  match env with [] => None | (k', b) :: r => if k =? k' then Some b else env_get r k end.
+Definition is_jws (env : list (string * bool)) (s : string) : bool :=
+  match env_get env s with Some _ => true | None => false end.
+
+(* isJWTVC + ParseCombinedFormatFor{Presentation,Issuance} *)
+Definition dec_cred_str (env : list (string * bool)) (s : string) : option cred :=
+  match split_tilde s with
+  | [] => None
+  | jwt :: rest =>
+      match env_get env jwt with
+      | None => None                       (* not a JWS: a JSON credential in a string, or garbage: not modelled *)
+      | Some sd =>
+          match rest with
+          | [] => Some (CJwt jwt [] "" sd)
+          | _ =>
+              if negb sd then None else    (* disclosures without _sd_alg are refused *)
+              let lst := last rest "" in
+              if (lst =? "") || is_jws env lst then Some (CJwt jwt (removelast rest) lst sd)
+              else Some (CJwt jwt rest "" sd)
+          end
+      end
+  end.
+Definition dec_cred1 (env : list (string * bool)) (j : json) : option cred :=
+  match j with JStr s => dec_cred_str env s | _ => Some (CObj (f64j j)) end.
+(* Credential.MarshalJSON of a credential that has a JWT: the combined format with every disclosure when the
+   credential is an SD-JWT, the JWT otherwise *)
+(* CombinedFormatForPresentation.Serialize *)
+Definition ser_pres (jwt : string) (ds : list string) (hb : string) : string :=
+  match ds, hb with
+  | [], EmptyString => jwt
+  | _, _ => join_tilde (jwt :: ds ++ [hb])
+  end.
+Definition enc_cred (c : cred) : json :=
+  match c with
+  | CObj j => j
+  | CJwt jwt ds hb sd => if sd then JStr (ser_pres jwt ds hb) else JStr jwt
   end.
 
-Definition parse_vp (j : json) : option vp :=
+(* decodeCredentials *)
+Definition dec_creds (env : list (string * bool)) (o : option json) : option (list cred) :=
+  match o with
+  | None | Some JNull => Some []
+  | Some (JArr l) => mapM (dec_cred1 env) l
+  | Some j => option_map (fun c => [c]) (dec_cred1 env j)
+  end.
+Definition enc_creds (l : list cred) : option json :=
+  match l with [] => None | _ => Some (JArr (map enc_cred l)) end.
+
+Record vp := {
+  p_ctx : list string; p_cctx : list json; p_id : string; p_types : list string; p_creds : list cred;
+  p_holder : string; p_proofs : list (option obj); p_cf : obj }.
+
+Definition parse_vp (env : list (string * bool)) (j : json) : option vp :=
   match j with
   | JObj m =>
       id <- dec_str (lk m "id") ;;
@@ -370,7 +434,7 @@ Definition parse_vp (j : json) : option vp :=
       _jwt <- dec_str (lk m "jwt") ;;
       types <- dec_types (lk m "type") ;;
       ctx <- dec_context (lk m "@context") ;;
-      creds <- dec_creds (lk m "verifiableCredential") ;;
+      creds <- dec_creds env (lk m "verifiableCredential") ;;
       proofs <- dec_proofs (lk m "proof") ;;
       Some {| p_ctx := fst ctx; p_cctx := snd ctx; p_id := id; p_types := types; p_creds := creds;
               p_holder := holder; p_proofs := proofs; p_cf := top_cf rawPresentation_fields m |}
@@ -381,12 +445,13 @@ Definition raw_vp (w : variant) (p : vp) : obj :=
   [("@context", match w with AsIs => enc_context (p_ctx p) [] | Fixed => enc_context (p_ctx p) (p_cctx p) end)] ++
   emit_str "id" (p_id p) true ++
   [("type", enc_types (p_types p))] ++
-  opt_member "verifiableCredential" (match p_creds p with [] => None | l => Some (JArr l) end) ++
+  opt_member "verifiableCredential" (enc_creds (p_creds p)) ++
   emit_str "holder" (p_holder p) true ++
   opt_member "proof" (enc_list enc_proof1 (p_proofs p)).
 
 Definition marshal_vp (w : variant) (p : vp) : json := f64j (JObj (merge_cf (raw_vp w p) (p_cf p))).
-Definition roundtrip_vp (w : variant) (j : json) : option json := option_map (marshal_vp w) (parse_vp j).
+Definition roundtrip_vp (w : variant) (env : list (string * bool)) (j : json) : option json :=
+  option_map (marshal_vp w) (parse_vp env j).
 
 (* ---------- JWT claims of a credential ---------- *)
 (* dates: the harness gives each date string its Unix time (seconds) and whether it is a whole number of seconds
@@ -644,3 +709,54 @@ Definition roundtrip_did (w : variant) (j : json) : option json :=
       end
   | _ => None
   end.
+
+(* ---------- DID services: populateServices / populateRawServices in full ---------- *)
+(* stringArray: nil entries dropped, other non-strings read as "" *)
+Definition str_array (o : option json) : list string :=
+  match o with
+  | Some (JArr l) => flat_map (fun j => match j with JNull => [] | JStr s => [s] | _ => [""] end) l
+  | _ => []
+  end.
+(* populateKeys: every reference resolved to its absolute id; the table remembers, per absolute id, whether the
+   LAST reference to it was spelled relative *)
+Definition key_table (did base : string) (keys : list string) : list (string * bool) :=
+  map (fun v => (abs_id did base v, starts_hash v)) keys.
+Definition tbl_get (t : list (string * bool)) (k : string) : bool :=
+  fold_left (fun acc e => if fst e =? k then snd e else acc) t false.
+Definition out_keys (did base : string) (vals : list string) (t : list (string * bool)) : list string :=
+  map (fun v => if tbl_get t v then make_rel did base v else v) vals.
+
+Inductive endp := EV1 (uri : string) | EV2 (uri : string) (accept rk : list string) | ECore (m : obj) | ENone.
+Definition dec_endpoint (o : option json) : endp :=
+  match o with
+  | Some (JStr s) => if s =? "" then ENone else EV1 s
+  | Some (JArr (JObj e :: _)) =>
+      EV2 (str_entry (lookup e "uri")) (str_array (lookup e "accept")) (str_array (lookup e "routingKeys"))
+  | Some (JObj m) => match m with [] => ENone | _ => ECore (f64o m) end
+  | _ => ENone
+  end.
+Definition strs (l : list string) : json := JArr (map JStr l).
+Definition enc_endpoint (did base : string) (rt : list (string * bool)) (e : endp) : json :=
+  match e with
+  | EV1 s => JStr s
+  | EV2 uri acc rk =>
+      JArr [JObj ([("uri", JStr uri)] ++
+                  (match acc with [] => [] | _ => [("accept", strs acc)] end) ++
+                  (match rk with [] => [] | _ => [("routingKeys", strs (out_keys did base rk rt))] end))]
+  | ECore m => JObj m
+  | ENone => JNull
+  end.
+
+Definition roundtrip_service (did base : string) (m : obj) : obj :=
+  let id := str_entry (lookup m "id") in
+  let rks := str_array (lookup m "recipientKeys") in
+  let oks := str_array (lookup m "routingKeys") in
+  let rt := key_table did base rks in
+  let ot := key_table did base oks in
+  f64o (filter (fun kv => negb (mem (fst kv) service_typed_keys)) m) ++
+  [("id", JStr (if starts_hash id then make_rel did base (resolve_rel did base id) else id));
+   ("type", match lookup m "type" with Some t => f64j t | None => JNull end);
+   ("serviceEndpoint", enc_endpoint did base ot (dec_endpoint (lookup m "serviceEndpoint")))] ++
+  (match lookup m "priority" with Some JNull | None => [] | Some p => [("priority", f64j p)] end) ++
+  (match rks with [] => [] | _ => [("recipientKeys", strs (out_keys did base (map (abs_id did base) rks) rt))] end) ++
+  (match oks with [] => [] | _ => [("routingKeys", strs (out_keys did base (map (abs_id did base) oks) ot))] end).
